@@ -112,10 +112,18 @@ func ReplayFault(u *Universe, h History, dir string, step int, call int64) (res 
 				if strings.HasPrefix(err.Error(), "harness:") {
 					return Result{OK: false, Step: i, Action: s.A, Err: err.Error()}
 				}
+				if got, ok := w.cacheVsListing(); !ok {
+					return fail(i, s, "phantom-wallet", "keystores in memory after the failed "+s.A, "the wallets the database lists", got)
+				}
 				if err2 := w.Do(s); err2 != nil {
 					return fail(i, s, "retry-after-fault-failed", s.A, "repeating the call succeeds", err2.Error())
 				}
 			case "ImportStep", "RemoveStep":
+				if err != nil && (strings.Contains(err.Error(), "hand-shake did not complete") || strings.Contains(err.Error(), "did not finish a step within")) {
+					// the failed update left follower and worker waiting for each other (generous limits: 20 s / 60 s;
+					// the driver replays such a result alone before it counts)
+					return fail(i, s, "stuck-after-fault", s.A, "the worker resumes the follower and re-queues the task after a failed update", err.Error()+"\n"+goroutineDump())
+				}
 				if err != nil && !strings.Contains(err.Error(), "model-mismatch") {
 					return Result{OK: false, Step: i, Action: s.A, Err: "harness: " + err.Error()}
 				}
@@ -126,7 +134,11 @@ func ReplayFault(u *Universe, h History, dir string, step int, call int64) (res 
 						break
 					}
 					if _, err := w.workerStep(); err != nil {
-						return fail(i, s, "retry-after-fault-failed", s.A, "the re-queued task runs", err.Error())
+						kind := "retry-after-fault-failed"
+						if strings.Contains(err.Error(), "hand-shake did not complete") || strings.Contains(err.Error(), "did not finish a step within") || strings.Contains(err.Error(), "not parked at its gate") {
+							kind = "stuck-after-fault"
+						}
+						return fail(i, s, kind, s.A, "the re-queued task runs", err.Error()+"\n"+goroutineDump())
 					}
 				}
 				if !w.stepOutcomeReached(s) {
@@ -200,6 +212,9 @@ func FaultAddresses(u *Universe, dir string, seed int64) (res Result) {
 				return bad("created-wallet-unusable", id, "usable", err.Error())
 			}
 		}
+		if got, ok := w.cacheVsListing(); !ok {
+			return bad("phantom-wallet", fmt.Sprintf("keystores in memory after CreateWallet with a fault at storage call %d (err %v)", call, err), "the wallets the database lists", got)
+		}
 		if !fired {
 			break
 		}
@@ -270,6 +285,26 @@ func FaultAddresses(u *Universe, dir string, seed int64) (res Result) {
 		}
 	}
 	return res
+}
+
+// cacheVsListing: the keystores the manager holds in memory must be exactly the wallets the database lists
+// (a failed call must not leave a keystore behind that exists in memory only, nor drop one that is stored).
+func (w *World) cacheVsListing() (string, bool) {
+	sums, err := w.W.Wallets()
+	if err != nil {
+		return "Wallets: " + err.Error(), false
+	}
+	var listed, cached []string
+	for _, sm := range sums {
+		listed = append(listed, sm.WalletID)
+	}
+	cached = append(cached, w.W.VerifKeystoreManager().ListKeystoreNames()...)
+	sort.Strings(listed)
+	sort.Strings(cached)
+	if strings.Join(listed, ",") != strings.Join(cached, ",") {
+		return fmt.Sprintf("in memory %v, stored %v", cached, listed), false
+	}
+	return "", true
 }
 
 // stepOutcomeReached tells whether a worker step has had the outcome the model gives it.
